@@ -66,10 +66,18 @@ func e1configs(quick bool) []e1cfg {
 		{name: "flat/wide", trie: false, pool: []string{"s1", "s1x", "s1m", "s1a", "kk", "s2", "s12", "a0", "a1", "a2", "a0x", "u0", "u1", "c0", "k0", "m0"}, maxList: 2, depth: 2},
 		{name: "flat/triples", trie: false, pool: []string{"s1", "s1x", "kk", "s2", "a0", "a1"}, maxList: 3, depth: 2},
 		{name: "flat/deep", trie: false, pool: medium, maxList: 2, depth: 4},
-		{name: "flat/deeper", trie: false, pool: small, maxList: 2, depth: 6},
+		{name: "flat/deeper", trie: false, pool: small, maxList: 2, depth: 9},
 		{name: "trie/deep", trie: true, pool: medium, maxList: 2, depth: 3},
 		{name: "trie/deeper", trie: true, pool: small, maxList: 2, depth: 4},
 	}
+}
+
+// shadows: how many merged histories per level are expanded only to test the adequacy of the state key.
+func (c *e1cfg) shadows() int {
+	if len(c.pool) > 8 {
+		return 6
+	}
+	return 12
 }
 
 func (c *e1cfg) ops() []e1op {
@@ -339,6 +347,7 @@ type e1stats struct {
 	validRejSample           string
 	acceptedBlocks, poolAdds int
 	violations               int
+	mergeChecks              int
 }
 
 func runE1(r *vk.Run, scratch string, budget time.Duration) *e1stats {
@@ -364,26 +373,43 @@ func runE1(r *vk.Run, scratch string, budget time.Duration) *e1stats {
 		perDepth := []int{1}
 		depthDone := 0
 		capped := false
-		for depth := 1; depth <= cfg.depth && len(frontier) > 0; depth++ {
+		// state-key adequacy self-test: some histories that MERGED into a state found at the same level are expanded
+		// next to the state's representative ("shadows"); both must have the same successor for every op.
+		type shadow struct {
+			rep  int // index of the representative in the frontier
+			hist []int
+		}
+		var shadows []shadow
+		mergeChecks := 0
+		closed := false
+		for depth := 1; depth <= cfg.depth; depth++ {
+			if len(frontier) == 0 {
+				closed = true // no new state at the previous level: the reachable state space of this alphabet is exhausted
+				break
+			}
 			if r.Expired() || time.Now().After(deadline) {
 				capped = true
 				break
 			}
 			chunk := 12
 			chunks := (len(ops) + chunk - 1) / chunk
-			fr := e1frontier{Cfg: ci, Chunk: chunk, Nodes: frontier}
+			nodes := append([][]int{}, frontier...)
+			for _, sh := range shadows {
+				nodes = append(nodes, sh.hist)
+			}
+			fr := e1frontier{Cfg: ci, Chunk: chunk, Nodes: nodes}
 			path := filepath.Join(scratch, fmt.Sprintf("e1-%d-%d.json", ci, depth))
 			data, _ := json.Marshal(fr)
 			if err := ioutil.WriteFile(path, data, 0600); err != nil {
 				vk.Fatalf("e1: %v", err)
 			}
-			n := len(frontier) * chunks
+			n := len(nodes) * chunks
 			results := make([][]e1succ, n)
 			got := make([]bool, n)
 			done := r.RunIsolated(n, vk.IsoOpts{CaseTimeout: 5 * time.Minute, Workers: workers(), ExtraArgs: []string{"--part", "e1", "--c07-frontier", path}},
 				func(i int, raw json.RawMessage, fatal string) {
 					if fatal != "" {
-						vk.Fatalf("e1 %s: worker died in case %d (node %v): %s", cfg.name, i, opNames(frontier[i/chunks]), fatal)
+						vk.Fatalf("e1 %s: worker died in case %d (node %v): %s", cfg.name, i, opNames(nodes[i/chunks]), fatal)
 					}
 					if err := json.Unmarshal(raw, &results[i]); err != nil {
 						vk.Fatalf("e1: result of case %d: %v", i, err)
@@ -394,8 +420,35 @@ func runE1(r *vk.Run, scratch string, budget time.Duration) *e1stats {
 			if done < n {
 				capped = true
 			}
+			// shadows first: compare with their representative, op by op
+			if !capped {
+				succOf := func(node int) map[int]e1out {
+					m := map[int]e1out{}
+					for ch := 0; ch < chunks; ch++ {
+						for _, sc := range results[node*chunks+ch] {
+							m[sc.Op] = sc.Out
+						}
+					}
+					return m
+				}
+				for j, sh := range shadows {
+					a, b := succOf(sh.rep), succOf(len(frontier)+j)
+					for op := range ops {
+						ka, kb := a[op].Key, b[op].Key
+						va, vb := fmt.Sprint(a[op].Viol), fmt.Sprint(b[op].Viol)
+						if ka != kb || (len(a[op].Viol) == 0) != (len(b[op].Viol) == 0) {
+							vk.Fatalf("e1 %s: state key too coarse: %v and %v share a key but diverge on %s: %q %s vs %q %s", cfg.name,
+								opNames(frontier[sh.rep]), opNames(sh.hist), ops[op], ka, va, kb, vb)
+						}
+					}
+					mergeChecks++
+				}
+			}
 			var next [][]int
-			for i := 0; i < n; i++ {
+			nextIndex := map[string]int{}
+			var nextShadows []shadow
+			merges := 0
+			for i := 0; i < len(frontier)*chunks; i++ {
 				if !got[i] {
 					continue
 				}
@@ -428,10 +481,18 @@ func runE1(r *vk.Run, scratch string, budget time.Duration) *e1stats {
 						continue
 					}
 					if _, ok := seen[sc.Out.Key]; ok {
+						// a merge; if the state was found at this very level by a different route, keep some as shadows
+						if idx, ok := nextIndex[sc.Out.Key]; ok && depth < cfg.depth {
+							merges++
+							if merges%5 == 0 && len(nextShadows) < cfg.shadows() {
+								nextShadows = append(nextShadows, shadow{idx, h})
+							}
+						}
 						continue
 					}
 					seen[sc.Out.Key] = h
 					states++
+					nextIndex[sc.Out.Key] = len(next)
 					next = append(next, h)
 					if states%37 == 1 {
 						r.Sample(map[string]interface{}{"engine": "E1", "search": cfg.name, "ops": opNames(h), "state": sc.Out.Key})
@@ -439,20 +500,24 @@ func runE1(r *vk.Run, scratch string, budget time.Duration) *e1stats {
 				}
 			}
 			perDepth = append(perDepth, len(next))
-			frontier = next
+			frontier, shadows = next, nextShadows
 			if capped {
 				break
 			}
 			depthDone = depth
+		}
+		if !capped && len(frontier) == 0 {
+			closed = true
 		}
 		if capped {
 			r.Capped(fmt.Sprintf("E1 %s: deadline at depth %d (depth %d fully covered)", cfg.name, depthDone+1, depthDone))
 		}
 		st.states += states
 		st.transitions += trans
-		st.perSearch = append(st.perSearch, map[string]interface{}{"search": cfg.name, "alphabet": len(ops), "depth_completed": depthDone,
-			"states": states, "transitions": trans, "new_states_per_depth": perDepth})
-		fmt.Printf("E1 %-10s alphabet=%d depth=%d states=%d transitions=%d per-depth=%v\n", cfg.name, len(ops), depthDone, states, trans, perDepth)
+		st.mergeChecks += mergeChecks
+		st.perSearch = append(st.perSearch, map[string]interface{}{"search": cfg.name, "alphabet": len(ops), "depth_completed": depthDone, "depth_bound": cfg.depth,
+			"states": states, "transitions": trans, "new_states_per_depth": perDepth, "state_space_closed": closed, "state_key_adequacy_checks": mergeChecks})
+		fmt.Printf("E1 %-12s alphabet=%d depth=%d states=%d transitions=%d per-depth=%v closed=%v key-checks=%d\n", cfg.name, len(ops), depthDone, states, trans, perDepth, closed, mergeChecks)
 	}
 	return st
 }
